@@ -98,7 +98,7 @@ def plan(seed_id, n, wrap):
     docs.append(_move_lines(tool, multisite.doc_for(ms, "neighbour.py", [0]), blank))
     meta["neighbour.py"] = {"S": [], "doc": None}
     if tool == "sonar":
-        for st in ("RESOLVED", "CLOSED"):
+        for st in ("RESOLVED", "CLOSED", "REVIEWED"):  # REVIEWED = the closed state of a security hotspot
             p = f"status_{st.lower()}.py"
             files[p] = data
             docs.append(_set_status(multisite.doc_for(ms, p, allc), st))
